@@ -477,7 +477,9 @@ def cli_update_preserves(ctx):
                 if upath and not os.path.isdir(os.path.join(b, upath)):
                     upath = ''
                 pre = {p: d for p, d, mt in ET.list_real_files(b)}
-                with ET.ScandirOrder(GT.order_key_for(c.meta['order_seed'])):
+                import common
+                tz = r.choice(['UTC', 'UTC', 'XYZ-3', 'EST5', 'JST-9'])
+                with ET.ScandirOrder(GT.order_key_for(c.meta['order_seed'])), common.local_tz(tz):
                     rc, items = PT.run_cli_collect(argv + [os.path.join(b, upath) if upath else b])
                 post = {p: d for p, d, mt in ET.list_real_files(b)}
             finally:
@@ -1081,6 +1083,64 @@ def c13(ctx):
               dist={'runs_rule_ok': rule_ok, 'runs_rule_broken': rule_bad, 'manifests_at_watermark_plus_minus_1': boundary,
                     'runs_not_completing': len(seconds) - rule_ok - rule_bad})
     cli_profile_format(ctx)
+    forced_save_double_refs(ctx)
+
+
+def forced_save_double_refs(ctx):
+    """a forced save with a watermark and no update before it (the library route), on consistent trees in which sub-Manifests are referenced
+    twice (the same line again, or from the top-level Manifest as well): every reference follows the rename, the tree verifies"""
+    r = ctx.rng('c13double')
+    cases = []
+    for _ in range(150 if ctx.tier == 'quick' else 1500):
+        while True:
+            c = GT.Case()
+            t, files, written = GT.build_consistent(r, c, allow_multi=False, dups=False, double_refs=0.8)
+            if c.meta.get('double_references') and not name_clash(t, written) and not t.link_paths():
+                break
+        c.meta['mutations'] = []
+        c.meta['order_seed'] = r.randint(0, 3)
+        t.hardlinks = True
+        c.hash_names = set(GT.GOOD_HASHES)
+        c.opts = (r.choice(PT.HASHSETS), r.random() < 0.5, None, None, 'default', None, None, False)
+        w = r.choice([0, 0, 10**6])
+        fmt = r.choice(['gz', 'bz2', 'xz', None])
+        first = r.choice([[], [['update_path', sorted(files)[0], 'DATA', []]]]) if files else []
+        c.ops = [['verify', '', 1, []], ['reload']] + first + [['save', [], r.choice([1, 1, 0]) if not first else 0, [], [w], [fmt] if fmt else []], ['files'], ['loaded'], ['reload'], ['verify', '', 1, []]]
+        c.meta['watermarks'] = [w]
+        c.meta['fmt'] = fmt
+        cases.append(c)
+    with ET.Scratch() as sc:
+        res = PT.run_cases(ctx, cases, 'tree:forced-save-double-references', sc)
+    PT.reclassify(ctx, 'forced save with a watermark on doubly referenced sub-Manifests differs from the reference (C13)')
+    good = 0
+    for c, i, m in res:
+        if i[0] != 'ok' or len(i[1]) != len(c.ops):
+            continue
+        out = i[1]
+        k = len(c.ops) - 5
+        if not (out[0][0] == 'ok' and out[0][1][0] == 1) or any(x[0] != 'ok' for x in out[1:k]):
+            continue          # the tree as generated does not verify (an IGNORE look-alike beside an entry): not judged
+        replay = {'meta': meta_of(c), 'ops': c.ops, 'opts': list(c.opts), 'impl': slim(out), 'tree': PT.describe(c.tree)}
+        if out[k][0] != 'ok':
+            if out[k][1][0] not in ('OSError',):
+                ctx.violation('spec', f'save with watermark {c.meta["watermarks"][0]} on a consistent tree with doubly referenced sub-Manifests fails: {out[k][1][:3]}', replay)
+            continue
+        probs = []
+        if out[k + 1][0] == 'ok':
+            files2 = files_of(out[k + 1][1])
+            used, refs = OX.in_use(files2)
+            for mm, e, tgt in refs:
+                if tgt not in files2:
+                    probs.append(f'{mm} references {tgt} which does not exist')
+        v = out[-1]
+        if not (v[0] == 'ok' and v[1][0] == 1):
+            probs.append(f'the tree does not verify afterwards: {str(v)[:160]}')
+        if probs:
+            if not known_finding(ctx, 'C13', c, 'watermark', probs):
+                ctx.violation('spec', f'after a save with watermark {c.meta["watermarks"][0]}: {probs[:3]}', replay)
+        else:
+            good += 1
+    ctx.count('tree:forced-save-double-references', len(cases), len(cases), dist={'runs_consistent_afterwards': good})
 
 
 def cli_profile_format(ctx):
